@@ -229,9 +229,9 @@ class Project(object):
             parts = self._norm_cache[key]
         except KeyError:
             parts = []
-            # a directory on the path is where top-level names live: it is
-            # not a package of its own even if it holds an __init__.py
-            tops = set(os.path.abspath(p) for p in self.get_path())
+            # a source root is where top-level names live: it is not a
+            # package of its own even if it holds an __init__.py
+            tops = set(os.path.abspath(p) for p in self.sources)
             while True:
                 if (os.path.abspath(root) not in tops and
                         os.path.exists(os.path.join(root, '__init__.py'))):
